@@ -13,7 +13,7 @@ KINDS = {
             "DeleteFailed", "RestartFailed", "NodeDied", "ViewError"],
     "C20": ["MembersLostOnRestart", "RemovedStillListed", "MemberMissing", "AddressWrong", "JoinFailed", "RestartFailed", "NodeDied"],
 }
-SCENARIOS = ["basic", "wiring", "snapshot", "leave", "lagging", "lagging-leave", "joinfail"]
+SCENARIOS = ["basic", "wiring", "snapshot", "leave", "lagging", "lagging-leave", "joinfail", "lagging-replicas"]
 
 
 def run_scenarios(ctx, repeat, scenarios=None):
@@ -34,7 +34,7 @@ def run_scenarios(ctx, repeat, scenarios=None):
         subprocess.run(["rm", "-rf", work])
         return sc, lines
     jobs = [(i, sc) for i, sc in enumerate((scenarios or SCENARIOS) * repeat)]
-    with ThreadPoolExecutor(max_workers=7) as ex:
+    with ThreadPoolExecutor(max_workers=8) as ex:
         res = list(ex.map(one, jobs))
     trace = ctx.path("cluster.ndjson")
     with open(trace, "w") as f:
@@ -50,11 +50,11 @@ def run_family(ctx):
         r = ctx.tlc("Catalogue", "Catalogue_mc.cfg", timeout=900)
         if r.violated:
             raise vlib.NoVerdict("Catalogue violates %s in the repaired switch positions" % r.violated)
-        for sw in ("RestoreReplaces", "WireFirst"):
-            rr = ctx.tlc("Catalogue", ctx.cfg("Catalogue_mc.cfg", {sw: "FALSE"}), timeout=600, name="Catalogue-" + sw, count=False)
-            ctx.cov["binding_selftest"]["switch_%s_FALSE_gives_counterexample" % sw] = rr.violated
+        for sw, val in (("RestoreMode", '"addonly"'), ("RestoreMode", '"datasets"'), ("WireFirst", "FALSE")):
+            rr = ctx.tlc("Catalogue", ctx.cfg("Catalogue_mc.cfg", {sw: val}), timeout=600, name="Catalogue-%s-%s" % (sw, val.strip('"')), count=False)
+            ctx.cov["binding_selftest"]["switch_%s_%s_gives_counterexample" % (sw, val.strip('"'))] = rr.violated
             if not rr.violated:
-                raise vlib.NoVerdict("vacuity guard failed for %s" % sw)
+                raise vlib.NoVerdict("vacuity guard failed for %s = %s" % (sw, val))
     else:
         r = ctx.tlc("Membership", "Membership_mc.cfg", timeout=900)
         if r.violated:
